@@ -28,6 +28,52 @@ def or_known_key_by_item_and_attribute(i: int, val: int) -> bool:
     return r[k] == val and getattr(r, k) == val and len(r) == 1 and list(r) == [k]
 
 
+def or_update_rejects_unknown_keys(key: str, val: int) -> bool:
+    """
+    pre: key not in OptimizeResult._keys
+    pre: len(key) <= 4
+    post: __return__ == True
+    """
+    # the other writing methods of the mapping obey the same fixed set of fields
+    r = OptimizeResult()
+    try:
+        r.update([(key, val)])
+    except ValueError:
+        return len(r) == 0
+    return False
+
+
+UNKNOWN_KEYS = ["", "X", "xx", "bogus", "fval ", "Fval", "status_", "x1", "useroptions"]
+
+
+def or_setdefault_rejects_unknown_keys(j: int, val: int) -> bool:
+    """
+    pre: 0 <= j < len(UNKNOWN_KEYS)
+    post: __return__ == True
+    """
+    # (a symbolic str as the key of a dict membership test is not explored exhaustively by CrossHair: concrete unknown names)
+    r = OptimizeResult()
+    key = UNKNOWN_KEYS[j]
+    try:
+        r.setdefault(key, val)
+    except ValueError:
+        return len(r) == 0
+    return False
+
+
+def or_update_stores_copies(i: int, a: int, b: int) -> bool:
+    """
+    pre: 0 <= i < len(OptimizeResult._keys)
+    post: __return__ == True
+    """
+    r = OptimizeResult()
+    k = OptimizeResult._keys[i]
+    v = [a]
+    r.update({k: v})
+    v.append(b)
+    return r[k] == [a]
+
+
 UNKNOWN_ATTRS = ["xx", "X", "fvals", "f_val", "result", "iteration", "msg", "status_", "x1"]
 
 
